@@ -275,6 +275,7 @@ def gen_cases(ctx):
                            client_strategy=dict(attempts=n, codes='one', excs='one', backoff=spec))
     yield from gen_repeat(ctx)
     yield from gen_churn(ctx)
+    yield from gen_httpx(ctx)
     # (E) failures raised by the client itself while reading the answer (not JSON, not a response, identity mismatch) are attempts
     #     that ended in an exception like any other: re-sent iff the exception type is listed
     for n in (0, 1, 2):
@@ -289,6 +290,12 @@ def gen_cases(ctx):
             for kind in ('sync', 'async'):
                 yield dict(part='C', placement=name, kind=kind, request=rk, via='send', drop=['code_listed2', 'level_listed2', 'exc_listed2'],
                            client_strategy=cs, request_strategy=rs)
+
+
+def gen_httpx(ctx):
+    for backend in ('httpx', 'httpx-async'):
+        for n in range(0, ctx.pick(3, 4)):
+            yield dict(part='F', attempts=n, backend=backend)
 
 
 def gen_churn(ctx):
@@ -389,6 +396,60 @@ def run_physical(cfg, rec):
     return leaves
 
 
+def run_physical_httpx(cfg, rec):
+    """(F') the real httpx backends (sync / async) over httpx' in-process transport: the server answers 429 / 503 with a Retry-After header,
+    or a JSON-RPC reply; HTTPStatusError is listed. The pauses are the backoff's and nothing else, none after the last send"""
+    import httpx
+    from mc import sleeplog
+    from mc.harness.backends import ASYNC, make_backend_client
+    from mc.harness.client import run as drive
+    n, name = cfg['attempts'], cfg['backend']
+    leaves = 0
+
+    def once(env):
+        sends, script = [], []
+
+        def handler(req):
+            k = len(sends)
+            sends.append(req['body'])
+            if k > n + 2:
+                raise AssertionError('horizon')
+            what = ('ok', '429', '503')[env.choose(('http answer', k), 3)]
+            script.append(what)
+            if what == 'ok':
+                doc = json.loads(req['body'])
+                return 200, [('Content-Type', 'application/json')], json.dumps(dict(jsonrpc='2.0', id=doc['id'], result=k)).encode()
+            return int(what), [('Retry-After', '7'), ('Content-Type', 'text/plain')], b'slow down'
+        st = cr.R.RetryStrategy(backoff=cr.R.PeriodicBackoff(attempts=n, interval=0.5), exceptions={httpx.HTTPStatusError})
+        client = make_backend_client(name, handler, retry_strategy=st)
+        sleeplog.take()
+        out = drive('async' if ASYNC[name] else 'sync', lambda: client.call('m', 1))
+        return sends, script, (out[0], out[1] if out[0] == 'ok' else type(out[1]).__name__), [x[1] for x in sleeplog.take()]
+    for choices, (sends, script, out, sleeps) in explore_choices(once, max_exec=20000):
+        leaves += 1
+        rec.transitions += len(sends)
+        want_sends, final = 0, None
+        for what in script:
+            want_sends += 1
+            final = what
+            if what == 'ok' or want_sends >= n + 1:
+                break
+        c = dict(cfg=cfg, choices=list(choices))
+        if len(sends) != want_sends:
+            rec.violation('C09:physical:the number of HTTP requests differs from the number of attempts (%s backend)' % name, c, expected=want_sends, observed=dict(wire=len(sends), answers=script))
+        elif [round(x, 6) for x in sleeps] != [0.5] * (want_sends - 1):
+            rec.violation('C09:physical:the pauses are not the successive delays of the configured backoff (%s backend, replies carrying Retry-After)' % name, c,
+                          expected=[0.5] * (want_sends - 1), observed=sleeps)
+        elif (out[0] == 'ok') != (final == 'ok') or (final != 'ok' and out[1] != 'HTTPStatusError'):
+            rec.violation('C09:physical:caller did not receive the last attempt\'s outcome (%s backend)' % name, c, expected=final, observed=out)
+        rec.outcomes['physical httpx sends=%d final=%s' % (len(sends), final)] += 1
+    rec.traces += leaves
+    rec.states += leaves
+    rec.nontrivial_n += leaves
+    rec.counters['part F'] += leaves
+    return leaves
+
+
 def run_churn(cfg, rec):
     """short-lived per-request strategies on ONE long-lived client: each request is made with a strategy object of its own (created for the
     request, dropped afterwards, so that the next one may live at the same address) listing ITS code / exception; request k must be re-sent
@@ -447,6 +508,8 @@ def run_churn(cfg, rec):
 
 
 def run_case(cfg, rec):
+    if cfg.get('part') == 'F' and cfg.get('backend'):
+        return run_physical_httpx(cfg, rec)
     if cfg.get('part') == 'F':
         return run_physical(cfg, rec)
     if cfg.get('part') == 'churn':
